@@ -133,6 +133,14 @@ class _Return(Exception):
         self.value = value
 
 
+class _Break(Exception):
+    pass
+
+
+class _Continue(Exception):
+    pass
+
+
 class _HalfReturn(Exception):
     """one branch of a data-dependent `if` returned `value`; the other branch continues with the
     statements that follow, in `env` (first: the returning branch is the `if` body)"""
@@ -303,6 +311,10 @@ class Interp:
             raise _Return(v)
         if isinstance(st, ast.Pass):
             return
+        if isinstance(st, ast.Break):
+            raise _Break()          # caught by unrolled loops over concrete sequences only
+        if isinstance(st, ast.Continue):
+            raise _Continue()
         if isinstance(st, ast.Raise):
             raise AnalysisError("%s:%d raise statement reached in abstract execution" % (func.qualname, st.lineno))
         if isinstance(st, ast.If):
@@ -350,6 +362,8 @@ class Interp:
                     self._in_for_guard = False
             except _HalfReturn:
                 raise AnalysisError("%s:%d data-dependent return inside a loop" % (func.qualname, st.lineno))
+            except (_Break, _Continue):
+                raise AnalysisError("%s:%d break / continue in a loop that is not unrolled" % (func.qualname, st.lineno))
         if isinstance(st, ast.For):
             self._in_for_guard = False
             it = self.eval(st.iter, env, func, depth)
@@ -376,7 +390,12 @@ class Interp:
                     raise AnalysisError("loop too long to unroll")
                 for x in it:
                     self.assign(st.target, x, env, func, depth)
-                    self.exec_block(st.body, env, func, depth)
+                    try:
+                        self.exec_block(st.body, env, func, depth)
+                    except _Continue:
+                        continue
+                    except _Break:
+                        break
                 return
             raise AnalysisError("%s:%d unsupported loop iterable %s" % (func.qualname, st.lineno, unparse(st.iter)))
         raise AnalysisError("%s:%d unsupported statement %s" % (func.qualname, st.lineno, type(st).__name__))
